@@ -114,6 +114,15 @@ func goEnv() []string {
 	return env
 }
 
+// replayTZ: native replays run in a zone that differs from UTC and has daylight saving time, so
+// that "Local" is distinguishable from UTC and from any fixed offset captured at process start.
+func replayTZ() string {
+	if _, err := os.Stat("/usr/share/zoneinfo/America/New_York"); err == nil {
+		return "America/New_York"
+	}
+	return "Asia/Shanghai"
+}
+
 func harnessPkgOf(hdir, harness string) string {
 	for _, hp := range harnessPkgs {
 		ents, _ := os.ReadDir(filepath.Join(hdir, hp.dir))
@@ -180,7 +189,7 @@ func runNative(genDir, hdir string, tapes []*Tape) (map[string]*NativeResult, er
 			}
 			run := exec.Command(bin, "-test.run", "^TestVHReplay$", "-test.timeout", "600s")
 			run.Dir = filepath.Join(repoDir)
-			run.Env = append(goEnv(), "VH_TAPES="+tapeFile, "TZ=Asia/Shanghai")
+			run.Env = append(goEnv(), "VH_TAPES="+tapeFile, "TZ="+replayTZ())
 			var stdout bytes.Buffer
 			run.Stdout = &stdout
 			run.Stderr = &stdout
@@ -256,7 +265,7 @@ func runRaceTapes(genDir, hdir, ov string, tapes []*Tape, results map[string]*Na
 			os.WriteFile(tf, data, 0o644)
 			run := exec.Command(bin, "-test.run", "^TestVHReplay$", "-test.timeout", "300s")
 			run.Dir = repoDir
-			run.Env = append(goEnv(), "VH_TAPES="+tf, "TZ=Asia/Shanghai", "GORACE=halt_on_error=0")
+			run.Env = append(goEnv(), "VH_TAPES="+tf, "TZ="+replayTZ(), "GORACE=halt_on_error=0")
 			out, _ := run.CombinedOutput()
 			res := &NativeResult{ID: t.ID, Harness: t.Harness}
 			for _, line := range strings.Split(string(out), "\n") {
